@@ -215,7 +215,7 @@ impl Property for C20 {
             ops.push(gen_send(&mut r, false));
         }
         if mutation_mode {
-            let m = JsonMutation { kind: r.below(10) as u8, arg: r.next_u64() & 0xFFFF_FFFF };
+            let m = JsonMutation { kind: r.below(12) as u8, arg: r.next_u64() & 0xFFFF_FFFF };
             let at = r.range(if cfg.otaa { 1 } else { 0 }, ops.len() as i64) as usize;
             ops.insert(at, Op::RestoreMutated(m));
             for _ in 0..r.range(2, 5) {
